@@ -353,6 +353,29 @@ func run(t *testing.T, tape *simrt.Tape) *common.Outcome {
 				closeS()
 			})
 		}
+		if closeRace {
+			// a watcher that reads the swarm's own connection table at scheduling points of its own: a connection the swarm
+			// LISTS is an admitted connection, whether or not anything else ever shows it to the harness (a dial that fails
+			// because Close cancelled it does not return the connection it had already admitted)
+			wg.Add(1)
+			simrt.GoNamed("watcher", func() {
+				defer wg.Done()
+				for i := 0; i < 400; i++ {
+					dc := simrt.RecvCase((<-chan struct{})(actorsDone))
+					if simrt.Select("watcher", true, dc) == 0 {
+						return
+					}
+					for _, p := range peers {
+						for _, c := range S.Swarm.ConnsToPeer(p.ID) {
+							if h.conns[c.ID()] == nil {
+								h.o.Probe("connection-first-seen-in-the-swarm-table")
+							}
+							h.see(c)
+						}
+					}
+				}
+			})
+		}
 		for a, steps := range actors {
 			wg.Add(1)
 			wgActors.Add(1)
